@@ -59,6 +59,7 @@ Definition spec_map (nc nr : nat) (o : top) : option (nat -> nat -> source) :=
   | OFlipRows => Some (fun c r => FromCell c (nr - 1 - r))
   | OFlipCols => Some (fun c r => FromCell (nc - 1 - c) r)
   | OSort _ _ _ => None    (* decided relationally, below *)
+  | OSortFuse _ _ _ _ _ => None
   | OSetCell c r x | OSetRowCell c r x =>
       if okc c && okr r then
         Some (fun c' r' => if (c' =? N.to_nat c) && (r' =? N.to_nat r) then Value x else FromCell c' r')
@@ -189,6 +190,26 @@ Definition oracle_ops (inp obs : list N) : bool :=
                 | [] => false
                 end
               else list_N_eqb obs (0%N :: e_Nlist old)
+          | OSortFuse var line _ fired sigma =>
+              (* C11: when the comparator / key function panicked, every cell still holds an
+                 element that was in the array - the cells are a permutation of the old ones -
+                 and nothing outside the receiver moved; otherwise the sort's own contract *)
+              let bound := if sort_is_col var then nc else nr in
+              match obs with
+              | ok :: rest =>
+                  match run_parser (p_list p_N) rest with
+                  | Some new =>
+                      if fired then
+                        (ok =? 0)%N && outside_unchanged (oc_C c) q old new
+                        && list_N_eqb (sort_N old) (sort_N new)
+                      else if (line <? N.of_nat bound)%N then
+                        (ok =? 1)%N && outside_unchanged (oc_C c) q old new
+                        && sort_ok (oc_C c) q var (N.to_nat line) old new
+                      else (ok =? 0)%N && list_N_eqb new old
+                  | None => false
+                  end
+              | [] => false
+              end
           | o =>
               match spec_map nc nr o with
               | None => list_N_eqb obs (0%N :: e_Nlist old)
